@@ -80,6 +80,10 @@ func TestErrorShapes(t *testing.T) {
 	if !errors.As(NewError(ENetTemporary, "x"), &tmp) || !tmp.Temporary() {
 		t.Fatal("temporary")
 	}
+	u1, u2 := NewError(EUnhashable, "x"), NewError(EUnhashable, "x")
+	if !errors.Is(u1, u1) || errors.Is(u1, u2) {
+		t.Fatal("unhashable identity")
+	}
 	a, b := NewError(EPlain, "x"), NewError(EPlain, "x")
 	if errors.Is(a, b) {
 		t.Fatal("fresh values must be distinct")
